@@ -385,4 +385,32 @@ def toTreeF (h : Heap) : Nat → Nat → Tree
 
 def toTree (st : PT) : Tree := toTreeF st.heap (st.size + 1) st.root
 
+/-! ### executable well-formedness check (run by the driver after every call)
+
+`walkB` follows the `left` / `right` links from a node and checks every `parent` field on the way; `wfB` adds
+the remaining clauses of `Represents` (Proofs/PTreeWF.lean): no node twice, `size`, allocation serial, the
+sentinel's fields — and that every node of the tree and the sentinel are live entries of the heap (the
+model's `Heap.get` is total: a dead id would silently read as a zero node).  `Proofs/PTreeWfB.lean` proves
+`wfB st = true → WF st`. -/
+
+/-- ids below `i` in pre-order, `none` when a `parent` field is not the node above or fuel runs out -/
+def walkB (h : Heap) : Nat → Nat → Nat → Option (List Nat)
+  | 0, i, _ => if i = S then some [] else none
+  | f + 1, i, p =>
+    if i = S then some []
+    else if (h.get i).parent ≠ p then none
+    else
+      match walkB h f (h.get i).left i, walkB h f (h.get i).right i with
+      | some l, some r => some (i :: (l ++ r))
+      | _, _ => none
+
+def wfB (st : PT) : Bool :=
+  match walkB st.heap (st.size + 1) st.root S with
+  | none => false
+  | some ids =>
+    decide ids.Nodup && ids.length == st.size && ids.all (fun i => decide (i < st.fresh)) && decide (0 < st.fresh) &&
+    (st.heap.get S).color == .black && (st.heap.get S).key == 0 && (st.heap.get S).value == 0 &&
+    (st.heap.get S).left == 0 && (st.heap.get S).right == 0 &&
+    st.heap.m.contains S && ids.all (fun i => st.heap.m.contains i)
+
 end CC.PTree
